@@ -358,22 +358,38 @@ Definition roi_theta (r : roi) : Q * Q :=
 Definition tinit (r : roi) : tstate := (r, roi_theta r).
 Definition rot_compose (a b : Q * Q) : Q * Q := (Qred (fst a * fst b - snd a * snd b), Qred (snd a * fst b + fst a * snd b)).
 Definition rot_inverse (a : Q * Q) : Q * Q := (fst a, - snd a).
+(* angles are rotation pairs (cosine, sine): theta + dtheta is the composition of the rotations, theta - theta' composes with the inverse *)
+Definition ang := (Q * Q)%type.
+Definition ang_zero : ang := (1, 0).
+(* getattr(self, 'theta', 0.0): a class without a theta attribute (Projected3dROI) reads as angle 0 *)
+Definition theta_or_zero (t : option ang) : ang := match t with Some a => a | None => ang_zero end.
+Definition ang_add (a b : Q * Q) : Q * Q := rot_compose a b.
+Definition ang_sub (a b : Q * Q) : Q * Q := rot_compose a (rot_inverse b).
+(* Roi.rotate_by(dtheta): self.rotate_to(getattr(self, 'theta', 0.0) + dtheta) -- the angle handed to rotate_to *)
+Definition rotate_by_target (theta dtheta : Q * Q) : Q * Q := ang_add theta dtheta.
+(* PolygonalROI.rotate_to(theta): dtheta = theta - self.theta is what the vertices are turned by *)
+Definition poly_rotate_dtheta (theta self_theta : Q * Q) : Q * Q := ang_sub theta self_theta.
 Inductive top :=
 | TMove (t : pt)
 | TRotateTo (b : branch) (skip : bool) (c s : Q)      (* absolute position angle; skip = the code's isclose test on the difference *)
 | TToPolygon
 | TCopy
-| TRestore.
+| TRestore
+| TRotateBy (b : branch) (skip : bool) (c s : Q).     (* relative: (c, s) = cosine / sine of dtheta; b = branch of the NEW angle *)
+(* rotate_to(theta) on the tracked state *)
+Definition t_rotate_to (st : tstate) (b : branch) (skip : bool) (c s : Q) : tstate :=
+  let r := fst st in let th := snd st in
+  match r with
+  | Poly _ => let d := poly_rotate_dtheta (c, s) th in (rotate_to r b skip (fst d) (snd d), (c, s))
+  | Rect _ _ _ _ _ _ _ | Ellipse _ _ _ _ _ _ _ => (rotate_to r b skip c s, (c, s))
+  | _ => st
+  end.
 Definition t_apply (st : tstate) (o : top) : tstate :=
   let r := fst st in let th := snd st in
   match o with
   | TMove t => (move_to r t, th)
-  | TRotateTo b skip c s =>
-    match r with
-    | Poly _ => let d := rot_compose (c, s) (rot_inverse th) in (rotate_to r b skip (fst d) (snd d), (c, s))
-    | Rect _ _ _ _ _ _ _ | Ellipse _ _ _ _ _ _ _ => (rotate_to r b skip c s, (c, s))
-    | _ => st
-    end
+  | TRotateTo b skip c s => t_rotate_to st b skip c s
+  | TRotateBy b skip c s => let n := rotate_by_target th (c, s) in t_rotate_to st b skip (fst n) (snd n)
   | TToPolygon => match r with Rect _ _ _ _ _ _ _ => (to_polygon r, (1, 0)) | _ => st end
   | TCopy => st
   | TRestore => match r with Poly _ => (r, (1, 0)) | _ => st end
@@ -415,6 +431,7 @@ Definition dec_top (t : tree) : top :=
   | T 6 [br; sk; cc; ss] => TRotateTo (dec_branch br) (dec_bool sk) (dec_q cc) (dec_q ss)
   | T 4 _ => TCopy
   | T 5 _ => TRestore
+  | T 7 [br; sk; cc; ss] => TRotateBy (dec_branch br) (dec_bool sk) (dec_q cc) (dec_q ss)
   | _ => TToPolygon
   end.
 Definition enc_verdict (v : verdict) : tree :=
